@@ -679,6 +679,67 @@ def blocks(tier):
     out.append({"space": "precision", "tier": tier, "shard": [0, 1]})
     out.append({"space": "constant", "tier": tier, "shard": [0, 1]})
     out += [{"space": "optimized", "tier": tier, "shard": [i, 4]} for i in range(4)]
+    out.append({"space": "numtype", "tier": tier, "shard": [0, 1]})
+    return out
+
+
+# ------------------------------------------------------------------ the same numbers as other numeric types
+NUMTYPES = ["int", "np.float64", "np.float32", "np.int64", "np.int32", "np.uint8"]
+
+
+def numtype_cases():
+    """Every example structure, and the same with one leaf made invalid (-1 where the type allows a sign, else MAX + 1), with all leaves
+    given as Python int / numpy scalar types (the example leaves 0..3 are exact in each of them)."""
+    for t in TYPES:
+        for bad in (False, True):
+            for num in NUMTYPES:
+                if bad and num == "np.uint8":
+                    continue  # neither -1 nor MAX + 1 exists as uint8
+                yield {"sp": "numtype", "tag": t, "bad": bad, "num": num}
+
+
+def run_numtype(case):
+    import numpy as np
+    conv = {"int": int, "np.float64": np.float64, "np.float32": np.float32, "np.int64": np.int64, "np.int32": np.int32,
+            "np.uint8": np.uint8}[case["num"]]
+    t = case["tag"]
+    c = EXAMPLES[t]
+    if case["bad"]:
+        state = [False]
+
+        def spoil(x):
+            if isinstance(x, list):
+                return [spoil(y) for y in x]
+            if not state[0]:
+                state[0] = True
+                return -1.0
+            return x
+        c = spoil(c)
+
+    def cv(x):
+        return [cv(y) for y in x] if isinstance(x, list) else conv(x)
+    out = Out(case)
+    exp = gm.valid(t, c)
+    x = cv(c)
+    klass = GEOM_CLASSES[t]
+    cls = {"type": t, "entry": "all", "num": case["num"]}
+    res = [_try(lambda: klass(coordinates=x)), _try(lambda: geometry_validate({"type": t, "coordinates": x}, mode="dict")),
+           _try(lambda: geometry_validate(SimpleNamespace(type=t, coordinates=x), mode="attributes"))]
+    got = [_label(r) for r in res]
+    out.transitions = out.validated = 3
+    out.nontrivial = True
+    out.expect("accept_iff_valid", all((g == "accept") == exp for g in got), got, "accept" if exp else "reject",
+               dict(cls, model="valid" if exp else gm.why_invalid(t, c), got="/".join(got)))
+    if exp:
+        norm = gm.normal(t, c)
+        for r in res:
+            if _label(r) == "accept":
+                out.expect("normal_form", r.coordinates == norm, r.coordinates, norm, dict(cls, input="other-number-type"))
+    else:
+        for r in res:
+            if _label(r) != "accept":
+                out.expect("no_object_on_reject", _label(r) == "reject", _msg(r), "a ValueError subclass", dict(cls, exc=_excname(r)))
+    out.klass = "numtype:%s:%s" % (case["num"], "/".join(sorted(set(got))))
     return out
 
 
@@ -773,6 +834,9 @@ def run_block(block, rec):
     elif sp == "constant":
         for case in constant_cases():
             rec.add(run_constant_case(case))
+    elif sp == "numtype":
+        for case in numtype_cases():
+            rec.add(run_numtype(case))
     elif sp == "optimized":
         from mc import child
         cases = [{"c": c} for c in itertools.islice(optimized_structs(), i, None, n)]
@@ -797,4 +861,6 @@ def replay_case(case):
         return run_one(c, json.dumps(c), case["tag"], case)
     if case["sp"] == "constant":
         return run_constant_case(case)
+    if case["sp"] == "numtype":
+        return run_numtype(case)
     return run_tag_case(case)
